@@ -52,7 +52,7 @@ struct Arena
 			ull r = residues.empty() ? 0 : residues[resPos++ % residues.size()];
 			a = (cursor + period - 1) / period * period + uintptr_t(r % period);   // period and r are multiples of gran
 		}
-		if (a < kBase || a + size > kBase + kSize) { fail("arena exhausted"); throw std::bad_alloc(); }
+		if (size > kSize || a < kBase || a + size > kBase + kSize) { if (size <= kSize) fail("arena exhausted"); throw std::bad_alloc(); }   // a request larger than the arena is simply refused
 		for (auto& kv : live)
 			if (a < kv.first + kv.second && kv.first < a + size) { fail("harness: placement overlaps a live block"); break; }
 		cursor = std::max(cursor, a + size + 64);
@@ -633,11 +633,56 @@ template<size_t BC> static std::string u32Case(std::istringstream& is)
 	return "ok ops=" + std::to_string(nOps) + " maxlive=" + std::to_string(maxLive) + " refused=" + std::to_string(refused) + " mgrallocs=" + std::to_string(gA.nAlloc);
 }
 
+
+// u32gp BC bs nbuf h : real GetRealPointer(h) after nbuf buffers were created: buffer number, offset in it, pvGetBufferSize
+// u32nb BC bs maxTotal nbuf : real pvNewBuffer() with nbuf buffers present: new mBlockHead | Exn
+template<size_t BC> static std::string u32Arith(const std::string& cmd, std::istringstream& is)
+{
+	typedef internal::MemPoolUInt32<BC, PlaceMM> P;
+	gA.reset(); char out[200];
+	std::string res;
+	if (cmd == "u32gp")
+	{
+		ull bs, nbuf, h; is >> bs >> nbuf >> h;
+		PlaceMM mm; P pool{size_t(bs), std::move(mm), size_t(1000000)};
+		std::vector<uint32_t> hs; for (size_t i = 0; i < nbuf * BC; ++i) hs.push_back(pool.Allocate());
+		uintptr_t p = reinterpret_cast<uintptr_t>(pool.template GetRealPointer<void>(uint32_t(h)));
+		long k = -1; for (size_t i = 0; i < pool.mBuffers.GetCount(); ++i)
+		{ uintptr_t b = reinterpret_cast<uintptr_t>(pool.mBuffers[i]); if (b <= p && p < b + pool.pvGetBufferSize()) k = long(i); }
+		snprintf(out, sizeof out, "%ld %llu %llu", k, k >= 0 ? ull(p - reinterpret_cast<uintptr_t>(pool.mBuffers[size_t(k)])) : 0ull, ull(pool.pvGetBufferSize()));
+		res = out; for (uint32_t x : hs) pool.Deallocate(x);
+	}
+	else
+	{
+		ull bs, maxTotal, nbuf; is >> bs >> maxTotal >> nbuf;
+		PlaceMM mm; P pool{size_t(bs), std::move(mm), size_t(maxTotal)};
+		std::vector<uint32_t> hs; for (size_t i = 0; i < nbuf * BC; ++i) hs.push_back(pool.Allocate());
+		try { pool.pvNewBuffer(); res = std::to_string(ull(pool.mBlockHead)); } catch (const std::length_error&) { res = "Exn"; }
+		pool.DeallocateAll();
+	}
+	return res;
+}
+
 // ctor BC bs al : constructing a pool with (possibly absurd) parameters: ok | length_error | Stuck (a MOMO_CHECK assertion)
 template<size_t BC> static std::string ctorCase(std::istringstream& is)
 {
 	ull bs, al; is >> bs >> al; gA.reset();
-	try { typename Pool<BC, 0>::Params prm{size_t(bs), size_t(al)}; Pool<BC, 0> pool(prm); (void)pool; }
+	try
+	{
+		typename Pool<BC, 0>::Params prm{size_t(bs), size_t(al)}; Pool<BC, 0> pool(prm);
+		// an accepted size must be usable: the first Allocate either gets its memory (and the block lies inside it) or the
+		// manager refuses the (huge) request - it must never be asked for a wrapped, too small size
+		try
+		{
+			void* blk = pool.Allocate();
+			uintptr_t a = reinterpret_cast<uintptr_t>(blk);
+			bool inside = gA.owns(a, pool.GetBlockSize()) && a % pool.GetBlockAlignment() == 0;
+			bool bigEnough = gA.lastAllocSize >= pool.GetBlockSize();
+			pool.Deallocate(blk);
+			if (!inside || !bigEnough) return "FAIL accepted block size but the block is not inside the memory requested";
+		}
+		catch (const std::bad_alloc&) { if (!gA.live.empty()) return "FAIL leak after refused allocation"; }
+	}
 	catch (const std::length_error&) { return gA.nAlloc == 0 ? "length_error" : "FAIL allocated before throwing"; }
 	return "ok";
 }
@@ -710,6 +755,11 @@ int main()
 			{
 				ull bc; is >> bc;
 				out = forked([&] { return bc == 1 ? u32Case<1>(is) : bc == 2 ? u32Case<2>(is) : bc == 16 ? u32Case<16>(is) : bc == 32 ? u32Case<32>(is) : std::string("?"); });
+			}
+			else if (cmd == "u32gp" || cmd == "u32nb")
+			{
+				ull bc; is >> bc;
+				out = forked([&] { return bc == 1 ? u32Arith<1>(cmd, is) : bc == 2 ? u32Arith<2>(cmd, is) : bc == 16 ? u32Arith<16>(cmd, is) : bc == 32 ? u32Arith<32>(cmd, is) : std::string("?"); });
 			}
 			else if (cmd == "ctor")
 			{
